@@ -80,6 +80,17 @@ def mk_app(fn, args=(), kw=()):
             return Const(Fraction(1, 2))
     if fn == "getitem" and len(args) == 2:
         base, idx = args
+        if isinstance(base, App) and base.fn == "getitem" and len(base.args) == 2 and isinstance(base.args[1], Tup) and len(base.args[1].items) == 2:
+            # inserting a unit axis and taking it out again: x[:, None][:, 0] = x ; t[None, :][0] = t ; t[None, None][0] = t[None]
+            b0, (p0, p1) = base.args[0], base.args[1].items
+            full = App("slice", (Const(None), Const(None), Const(None)))
+            none = Const(None)
+            if p0 == full and p1 == none and isinstance(idx, Tup) and len(idx.items) == 2 and idx.items[0] == full and idx.items[1] == Const(0):
+                return b0
+            if p0 == none and p1 == full and idx == Const(0):
+                return b0
+            if p0 == none and p1 == none and idx == Const(0):
+                return App("getitem", (b0, none))
         if isinstance(base, Tup) and is_const(idx):
             i = const_of(idx)
             if isinstance(i, int) and -len(base.items) <= i < len(base.items):
